@@ -829,6 +829,27 @@ def d8_regimes(prog, rep):
             if not users:
                 continue
             nr += 1
+            # fold <-> dispatch: once the parameter is folded and the folded value is what the samplers receive, the test that chooses
+            # among those samplers must be about the folded value too: a test that still reads the raw field (directly or through a
+            # method of self that reads it) sends the regime folded away (theta > c) to the sampler chosen for its mirror image
+            keyd = 'fold-dispatch:%s:%s' % (d.split('::')[1], show(loc))
+            rawreads = []
+            for c_ in users:
+                for cn_, v_ in f.guards().get(c_.bb, []):
+                    if (cn_, v_) in gi or (cn_, v_) in go:
+                        continue
+                    cn2 = prog.inline(cn_, only=lambda p_: p_.startswith('<' + path) or p_.startswith(path))
+                    if any(z == fld or (tag(z) == 'field' and tag(fld) == 'field' and z[1] == fld[1] and z[2] == fld[2]) for z in subterms(cn2)):
+                        rawreads.append((c_, cn_))
+            if len(users) < 2:
+                rep.ok('fold-dispatch', keyd, 'one sampler receives the folded value: no dispatch')
+            elif rawreads:
+                c_, cn_ = rawreads[0]
+                rep.viol('fold-dispatch', keyd, 'the samplers receive the folded parameter %s (= %s when %s is %s) but %s is chosen by `%s`, which reads the unfolded field %s: '
+                         'for the folded-away regime the sampler is picked for the wrong value' % (
+                             show(loc), show(other[0].value)[:30], show(fc)[:30], fv, short(c_.path), show(cn_)[:60], show(fld)), site_of(c_.span))
+            else:
+                rep.ok('fold-dispatch', keyd, 'the sampler is chosen by tests on the folded value %s only' % show(loc))
             key = 'reflect:%s:%s' % (d.split('::')[1], show(loc))
             draws = set()
             for st in f.stores():
@@ -852,3 +873,4 @@ def d8_regimes(prog, rep):
                              show(loc), show(other[0].value)[:30], show(fc)[:30], fv, [show(st.value)[:40] for st in rets_fold],
                              [show(st.value)[:40] for st in rets_id]), site_of(other[0].span))
     rep.floor('reflect', 1, 'Binomial::sample p <-> 1-p')
+    rep.floor('fold-dispatch', 1, 'Binomial::sample inversion / BTPE choice')
